@@ -71,7 +71,7 @@ HISTORY = {
     'C17r2-A': ('caught', 'R-version-select existed'),
     'C17r2-B': ('missed', 'R-version-pairing extended: every (wildcard) store of the enabled version reaches a table rebuild on all normal paths'),
     'C05r2-B': ('missed', 'new rule R-serializer-idle'),
-    'C05r2-A': ('missed', 'not decided: a back-off that may hint the first stored index (needs the run-time fact that the compaction base always matches); see 8.5 notes'),
+    'C05r2-A': ('missed', 'new rule R-hint-floor (a lowered failure hint stays above the first stored index)'),
     'C14r2-A': ('missed', 'new rule R-disc-attribution'),
     'C14r2-B': ('missed', 'new rule R-established-checked'),
     'C15r2-A': ('missed', 'new rule R-none-is-a-value (with positive fixture)'),
